@@ -923,3 +923,57 @@ pub fn drive(ctx: &Ctx) -> Summary {
 pub fn btree_of(v: &Value) -> BTreeMap<String, Value> {
     v.as_object().map(|m| m.iter().map(|(k, v)| (k.clone(), v.clone())).collect()).unwrap_or_default()
 }
+
+#[cfg(test)]
+mod tests {
+    //! The property predicates must reject graphs that break the properties (they classify real graphs).
+    use super::*;
+
+    fn cls(r: &[&str], w: &[&str]) -> Sum {
+        Sum { role: "C", r: r.iter().map(|x| x.to_string()).collect(), w: w.iter().map(|x| x.to_string()).collect(), ..Default::default() }
+    }
+    fn rf(timed: bool, used: &[&str], blk: &[&str]) -> Sum {
+        Sum { role: "RF", timed, used: used.iter().map(|x| x.to_string()).collect(), blk: blk.iter().map(|x| x.to_string()).collect(), ..Default::default() }
+    }
+    fn es(v: &[(u64, u64, &str)]) -> BTreeSet<Edge> {
+        v.iter().map(|(f, t, l)| (*f, *t, l.to_string())).collect()
+    }
+
+    #[test]
+    fn c22_rejects_backward_edges_cycles_and_dangling_nodes() {
+        let sums = vec![cls(&[], &["a"]), cls(&["a"], &[])];
+        let good = es(&[(0, 1, "Stable"), (1, 2, "Write"), (2, END, "Stable")]);
+        assert!(c22_failures(&sums, &good).is_empty());
+        assert!(!c22_failures(&sums, &es(&[(0, 1, "Stable"), (2, 1, "Write"), (2, END, "Stable")])).is_empty());
+        assert!(!c22_failures(&sums, &es(&[(0, 1, "Stable"), (1, 2, "Write")])).is_empty()); // 2 does not reach END
+        assert!(!c22_failures(&sums, &es(&[(1, 2, "Write"), (2, END, "Stable")])).is_empty()); // 1 not reachable
+    }
+
+    #[test]
+    fn c23_rejects_unordered_conflicts_and_unjustified_edges() {
+        let sums = vec![cls(&[], &["a"]), cls(&["a"], &[]), cls(&["a"], &[])];
+        let good = es(&[(0, 1, "Stable"), (1, 2, "Write"), (1, 3, "Write"), (2, END, "Stable"), (3, END, "Stable")]);
+        assert!(c23_failures(&sums, &None, &good).is_empty());
+        // write then read without a path
+        assert!(!c23_failures(&sums, &None, &es(&[(0, 1, "Stable"), (1, 2, "Write")])).is_empty());
+        // two reads ordered by a direct memory edge
+        let mut bad = good.clone();
+        bad.insert((2, 3, "Read".into()));
+        assert!(!c23_failures(&sums, &None, &bad).is_empty());
+        // wrong access type on the edge
+        assert!(!c23_failures(&sums, &None, &es(&[(1, 2, "Capture"), (1, 3, "Write")])).is_empty());
+    }
+
+    #[test]
+    fn c24_rejects_unordered_frame_conflicts_and_edges_between_blockers() {
+        let sums = vec![rf(true, &["f"], &[]), rf(true, &[], &["f"]), rf(true, &[], &["f"])];
+        let good = es(&[(0, 1, "Stable"), (0, 1, "Sched"), (1, 2, "Stable"), (1, 2, "Sched"), (1, 3, "Stable"), (1, 3, "Sched")]);
+        assert!(c24_failures(&sums, &good).is_empty());
+        let mut no_sched = good.clone();
+        no_sched.remove(&(1, 3, "Sched".into()));
+        assert!(!c24_failures(&sums, &no_sched).is_empty());
+        let mut blockers = good.clone();
+        blockers.insert((2, 3, "Stable".into()));
+        assert!(!c24_failures(&sums, &blockers).is_empty());
+    }
+}
